@@ -2,7 +2,7 @@
 (2) random netlists (py/designs.py style) wrapped in a Logic subclass with real in/out ports.
 (3) whole port-less HWSystems, input-only / output-only blocks and the accumulator loop in every port configuration.
 Everything is reproducible from a small JSON-able recipe:  ('lib', name, params) | ('rand', seed, params) |
-('top', seed, params) | ('loop', variant) | ('par', variant) | ('selfloop', variant)."""
+('top', seed, params) | ('loop', variant) | ('par', variant) | ('gate', variant) | ('selfloop', variant)."""
 import random
 from common import quiet, quiet_import
 
@@ -65,6 +65,7 @@ LIB_QUICK = [
     ('ShiftRegBidir', (4, 3)), ('Mux', (8, 2)), ('Mux', (3, 1)), ('And', (1, 3)), ('And', (4, 6)), ('Or', (2, 5)), ('Xor', (1, 4)),
     ('Equal', (8,)), ('Max2', (6,)), ('Swap', (4,)), ('PipelinePhase', (8, 3)), ('Select', (4, 3)), ('Sign', (8,)), ('TReg', ()),
     ('StepUpCounter', (6,)), ('Decoder', (2,)), ('SignedAdd', (5,)),
+    ('OrBits', (12,)), ('AndBits', (10,)), ('Select', (2, 10)), ('OneHotMux', (2, 9)),        # gates with more than 8 inputs inside
 ]
 LIB_THOROUGH = LIB_QUICK + [
     ('Add', (w, co)) for w in (2, 3, 16, 33) for co in (False, True)] + [
@@ -162,7 +163,7 @@ def _populate(self, py4hw, ins, outs, rng, p):
             r = new(1); cls = rng.choice([py4hw.And, py4hw.Or]); xs = xs + [far]
             recipe.append((kind, lambda cls=cls, n=n, xs=xs, r=r: cls(self, n, xs, r)))
         elif kind == 'andn':
-            m = rng.randint(3, 5); xs = []
+            m = rng.choice([3, 4, 5, 5, 9, 12]); xs = []
             for _ in range(m): xs.append(pick(*xs))
             r = new(xs[0].getWidth())
             cls = rng.choice([py4hw.And, py4hw.Or])
@@ -405,6 +406,51 @@ def build_par(variant):
 PARS = [(src, k, dist) for src in ('cmp', 'bits', 'leaf') for k in (2, 3) for dist in (1, 2, 3)] + [('addco', 2, d) for d in (2, 3, 4)]
 
 
+def build_gate(variant):
+    """symbol gallery: ONE child of a given class / arity between real in-ports and out-ports, one port per pin, so that every
+    pin of every symbol class the schematic knows (and of the generic instance box) is wired to its own wire.
+    variant = (cls, n, w): class name, number of inputs (where the class takes a list) or option selector, data width."""
+    py4hw = quiet_import()
+    import py4hw.logic.bitwise as B
+    import py4hw.logic.relational as R
+    cls, n, w = variant
+
+    class Gate(py4hw.Logic):
+        def __init__(self, parent, name, hw):
+            super().__init__(parent, name)
+            I = lambda nm, wd=w: self.addIn(nm, hw.wire('i_' + nm, wd))
+            O = lambda nm, wd=w: self.addOut(nm, hw.wire('o_' + nm, wd))
+            if cls in ('And', 'Or', 'Nor', 'Xor'):
+                getattr(B, cls)(self, 'g', [I('x%d' % i) for i in range(n)], O('r'))
+            elif cls in ('And2', 'Or2', 'Nor2', 'Xor2', 'Nand2'):
+                getattr(B, cls)(self, 'g', I('a'), I('b'), O('r'))
+            elif cls in ('Not', 'Buf'):
+                getattr(B, cls)(self, 'g', I('a'), O('r'))
+            elif cls == 'Bit': B.Bit(self, 'g', I('a'), w - 1, O('r', 1))
+            elif cls == 'Range': B.Range(self, 'g', I('a'), w - 1, 0, O('r'))
+            elif cls == 'Mux2': B.Mux2(self, 'g', I('s', 1), I('a'), I('b'), O('r'))
+            elif cls in ('Add', 'Sub', 'Mul'):
+                if cls == 'Add':        # n: 0 plain, 1 carry out, 2 carry in + carry out
+                    py4hw.Add(self, 'g', I('a'), I('b'), O('r'), ci=I('ci', 1) if n == 2 else None, co=O('co', 1) if n >= 1 else None)
+                else: getattr(py4hw, cls)(self, 'g', I('a'), I('b'), O('r'))
+            elif cls == 'Reg':          # n: 0 d only, 1 + enable, 2 + enable + reset
+                py4hw.Reg(self, 'g', I('d'), O('q'), enable=I('e', 1) if n >= 1 else None, reset=I('rs', 1) if n >= 2 else None)
+            elif cls == 'Comparator': R.Comparator(self, 'g', I('a'), I('b'), O('gt', 1), O('eq', 1), O('lt', 1))
+            elif cls == 'BitsLSBF': B.BitsLSBF(self, 'g', I('a'), [O('b%d' % i, 1) for i in range(w)])
+            elif cls == 'Concat': B.ConcatenateMSBF(self, 'g', [I('x%d' % i) for i in range(n)], O('r', n * w))
+            elif cls == 'Swap': R.Swap(self, 'g', I('a'), I('b'), I('s', 1), O('ra'), O('rb'))
+            else: raise ValueError(cls)
+    with quiet():
+        hw = py4hw.HWSystem()
+        obj = Gate(hw, 'dut', hw)
+    return obj
+
+
+GATES = ([(c, n, 1) for c in ('And', 'Or') for n in (2, 3, 8, 9, 12, 17)] + [(c, n, 4) for c in ('Nor', 'Xor') for n in (2, 9)] +
+         [(c, 0, 4) for c in ('And2', 'Or2', 'Nor2', 'Xor2', 'Nand2', 'Not', 'Buf', 'Bit', 'Range', 'Mux2', 'Sub', 'Mul', 'Comparator', 'Swap')] +
+         [('Add', k, 8) for k in (0, 1, 2)] + [('Reg', k, 4) for k in (0, 1, 2)] + [('BitsLSBF', 0, 10), ('Concat', 9, 2), ('Or', 33, 1)])
+
+
 def build_selfloop(variant):
     """the smallest netlists with feedback through a register: a child whose output is wired straight to one of its
     own inputs.  variant: which pin ('e' enable, 'r' reset, 'd' data) and how many buffers sit between the in-port and
@@ -436,6 +482,7 @@ def build(recipe):
     if recipe[0] == 'selfloop': return build_selfloop(tuple(recipe[1]))
     if recipe[0] == 'loop': return build_loop(tuple(recipe[1]))
     if recipe[0] == 'par': return build_par(tuple(recipe[1]))
+    if recipe[0] == 'gate': return build_gate(tuple(recipe[1]))
     if recipe[0] == 'top': return build_top(recipe[1], recipe[2])
     if recipe[0] == 'rand': return build_rand(recipe[1], recipe[2])
     raise ValueError(recipe)
